@@ -515,8 +515,8 @@ impl Family for C13 {
 
     fn runs(t: Tier) -> u64 {
         match t {
-            Tier::Quick => 200_000,
-            Tier::Thorough => 20_000_000,
+            Tier::Quick => 4_000_000,
+            Tier::Thorough => 400_000_000,
         }
     }
 }
